@@ -143,10 +143,14 @@ func (t *tokenizer) error(msg string) (tok, tokenizer) {
 
 func (t *tokenizer) quotedWord() (tok, tokenizer) {
 	pos := 1 // Skip initial "
-	for pos < len(t.q) && (t.q[pos] != '"' || t.q[pos-1] == '\\') {
+	for pos < len(t.q) && t.q[pos] != '"' {
+		if t.q[pos] == '\\' {
+			// Skip the escaped character.
+			pos++
+		}
 		pos++
 	}
-	if pos == len(t.q) {
+	if pos >= len(t.q) {
 		return t.error("missing end quote")
 	}
 	// Parse the quoted string.
